@@ -52,7 +52,7 @@ func (c05) Runs(t Tier) int {
 }
 func (c05) RecordWidths() map[string]int { return map[string]int{"ops": 3} }
 func (c05) RequiredProbes() []string {
-	return []string{"range-starts-on-boundary", "range-ends-on-boundary", "range-inside-one-chunk", "range-empty", "range-whole-file", "reader-history", "subset-traversal", "lookup-member", "lookup-nonmember", "hamt-depth>=3", "path-through-hamt", "path-to-multiblock-file", "starved-ok"}
+	return []string{"range-starts-on-boundary", "range-ends-on-boundary", "range-inside-one-chunk", "range-empty", "range-whole-file", "reader-history", "subset-traversal", "lookup-member", "lookup-nonmember", "hamt-depth>=3", "path-through-hamt", "path-to-multiblock-file", "path-to-missing-entry", "starved-ok"}
 }
 
 type c05Scenario struct {
@@ -509,7 +509,14 @@ func (c05) runDir(ts *tape.Set, tier Tier) *Result {
 					return
 				}
 				monitor(st, allowed, starve, &outside)
-				got, lerr = n.LookupByString(name)
+				switch i % 3 {
+				case 0:
+					got, lerr = n.LookupByString(name)
+				case 1:
+					got, lerr = n.LookupBySegment(datamodel.PathSegmentOfString(name))
+				default:
+					got, lerr = n.LookupByNode(basicnode.NewString(name))
+				}
 			})
 			res.Execs++
 			res.Events += len(st.Log)
@@ -584,9 +591,14 @@ func (c05) runTree(ts *tape.Set, tier Tier) *Result {
 	for i := 0; i < nOps && res.Violation == nil; i++ {
 		pi := ops.Intn(len(paths))
 		style := ops.Intn(4)
-		ops.Skip(1)
+		missing := ops.Intn(4) == 3
 		segs := paths[pi]
 		target := nodes[pi]
+		if missing {
+			// a path that names no entry: resolution stops at the parent and must
+			// not have fetched anything beyond the way there
+			segs = append(append([]string(nil), segs[:len(segs)-1]...), segs[len(segs)-1]+"~missing")
+		}
 		pathStr := strings.Join(segs, "/")
 		switch style {
 		case 1:
@@ -597,7 +609,9 @@ func (c05) runTree(ts *tape.Set, tier Tier) *Result {
 			pathStr = strings.Join(segs, "//")
 		}
 		blocks, tgt, err := dagmodel.PathBlocks(st, tree.Cid, segs)
-		if err != nil || !tgt.Defined() || !tgt.Equals(target.Cid) {
+		if missing && err == nil && !tgt.Defined() {
+			res.probe("path-to-missing-entry")
+		} else if err != nil || !tgt.Defined() || !tgt.Equals(target.Cid) {
 			res.Skipped, res.SkipReason = true, fmt.Sprintf("model cannot resolve %q: %v", pathStr, err)
 			return res
 		}
@@ -674,6 +688,21 @@ func (c05) runTree(ts *tape.Set, tier Tier) *Result {
 			wantKind := datamodel.Kind_Map
 			if target.Kind == "file" {
 				wantKind = datamodel.Kind_Bytes
+			}
+			if missing {
+				if walkErr != nil || matched != 0 {
+					if starve {
+						fail("c05/path/needs-unrelated-block", "starved store: a path naming no entry gave err=%v matched=%d", walkErr, matched)
+					} else {
+						res.Skipped, res.SkipReason = true, fmt.Sprintf("fault-free traversal of a missing path disagrees with the model (C03's subject): err=%v matched=%d", walkErr, matched)
+						return res
+					}
+					break
+				}
+				if starve {
+					res.probe("starved-ok")
+				}
+				continue
 			}
 			if walkErr != nil || matched != 1 || matchedKind != wantKind {
 				if starve {
